@@ -290,14 +290,13 @@ impl<'a> DataRowIteratorTestData<'a> {
             .map(|(expected_index, output_index)| match *output_index {
                 OutputEntryIndex::Output(output_entry_index) => {
                     let expected_signal = &self.signals[expected_index.signal_index()];
-                    let output_signal = outputs[output_entry_index].signal;
-
-                    if expected_signal == output_signal {
-                        Ok(outputs[output_entry_index].value)
-                    } else {
-                        Err(IterationError::Runtime(
+                    // The index comes from the first answer; a driver that has changed
+                    // its layout since may return fewer entries than that
+                    match outputs.get(output_entry_index) {
+                        Some(output) if expected_signal == output.signal => Ok(output.value),
+                        _ => Err(IterationError::Runtime(
                             RuntimeErrorKind::WrongOutputOrder.into(),
-                        ))
+                        )),
                     }
                 }
                 OutputEntryIndex::Virtual(expr) => expr
